@@ -15,12 +15,14 @@ package hessian
 //@   assigns mapof(typMap), mapof(seen)
 //@   measure [C16:fetchtype-terminates] grows mapsize(typMap) + mapsize(seen) then shrinks T.height(typ)
 //@   loop 1 invariant [C16:fetch-pointers] mapsize(typMap) == old(mapsize(typMap)) && mapsize(seen) >= old(mapsize(seen)) && (mapsize(seen) > old(mapsize(seen)) || T.height(typ) <= T.height(entry(typ))) && (R.tKind(entry(typ)) != K.Ptr ==> typ == entry(typ))
+//@   loop 1 invariant [C16:fetch-base] T.base(typ) == T.base(entry(typ))
 //@   loop 1 invariant [C16:fetch-monotone-ptr] forall k string :: old(maphas(typMap, k)) ==> maphas(typMap, k)
 //@   loop 2 invariant [C16:fetch-fields] 0 <= i && mapsize(typMap) > old(mapsize(typMap)) && mapsize(seen) >= old(mapsize(seen)) && maphas(typMap, R.tName(typ)) && (R.tKind(entry(typ)) != K.Ptr ==> typ == entry(typ))
 //@   loop 2 invariant [C16:fetch-monotone-loop] forall k string :: old(maphas(typMap, k)) ==> maphas(typMap, k)
 //@   ensures [C16:fetch-grows] mapsize(typMap) >= old(mapsize(typMap)) && mapsize(seen) >= old(mapsize(seen))
 //@   ensures [C16:fetch-monotone] forall k string :: old(maphas(typMap, k)) ==> maphas(typMap, k)
 //@   ensures [C16:fetch-registers-struct] R.tKind(entry(typ)) == K.Struct && entry(typ) != _dateType ==> maphas(typMap, R.tName(entry(typ)))
+//@   ensures [C16:fetch-date-is-leaf] T.base(entry(typ)) == _dateType ==> mapsize(typMap) == old(mapsize(typMap)) && (forall k string :: maphas(typMap, k) == old(maphas(typMap, k)))
 
 //@ func FetchType
 //@   requires typMap != nil
@@ -28,6 +30,7 @@ package hessian
 //@   ensures [C16:fetch-grows] mapsize(typMap) >= old(mapsize(typMap))
 //@   ensures [C16:fetch-monotone] forall k string :: old(maphas(typMap, k)) ==> maphas(typMap, k)
 //@   ensures [C16:fetch-registers-struct] R.tKind(typ) == K.Struct && typ != _dateType ==> maphas(typMap, R.tName(typ))
+//@   ensures [C16:fetch-date-is-leaf] T.base(typ) == _dateType ==> mapsize(typMap) == old(mapsize(typMap))
 
 //@ func TypeMapOf
 //@   ensures [C16:typemap-fresh] fresh(result) && result != nil
